@@ -190,8 +190,10 @@ func c19Build(d *DescC19) (scte35.SegmentationDescriptor, *hx.Failure) {
 		o.SetSegmentNumber(w.Num)
 		o.SetSegmentsExpected(w.Expected)
 		o.SetHasSubSegments(w.HasSub)
-		o.SetSubSegmentNumber(w.SubNum)
-		o.SetSubSegmentsExpected(w.SubExpected)
+		if w.HasSub {
+			o.SetSubSegmentNumber(w.SubNum)
+			o.SetSubSegmentsExpected(w.SubExpected)
+		}
 		return o, nil
 	}
 	m := ref.Splice{TableID: 0xFC, Tier: 0xFFF, Descs: []ref.SpliceDesc{w}}
@@ -286,6 +288,12 @@ func checkC19(c CaseC19, x *hx.Ctx) *hx.Failure {
 			return f
 		}
 		objs = append(objs, o)
+		if d.Cancel && byte(o.TypeID()) != d.Type {
+			// a cancelled descriptor carries no type on the wire; a library that stops reporting the type that was set leaves
+			// the relations without defined arguments
+			x.Label("cancelled-type-hidden")
+			return nil
+		}
 	}
 	if f := c19Track(c, objs); f != nil {
 		return f
@@ -424,11 +432,20 @@ func TestC19ExhaustiveGrid(t *testing.T) {
 		db.SetSegmentsExpected(open.Exp)
 		sa.SetDescriptors([]scte35.SegmentationDescriptor{da})
 		sb.SetDescriptors([]scte35.SegmentationDescriptor{db})
+		// the signals' own handles (a signal may keep copies of what it is given)
+		if l := sa.Descriptors(); len(l) == 1 {
+			da = l[0]
+		}
+		if l := sb.Descriptors(); len(l) == 1 {
+			db = l[0]
+		}
 		for ti := 0; ti < 256; ti++ {
 			da.SetTypeID(scte35.SegDescType(ti))
 			da.SetHasSubSegments(sub)
-			da.SetSubSegmentNumber(1)
-			da.SetSubSegmentsExpected(2)
+			if sub {
+				da.SetSubSegmentNumber(1)
+				da.SetSubSegmentsExpected(2)
+			}
 			if da.IsIn() != ref.IsInType(byte(ti)) || da.IsOut() != ref.IsOutType(byte(ti)) || (da.IsIn() && da.IsOut()) {
 				in.Type, open.Type = byte(ti), byte(ti)
 				propC19.Eval(CaseC19{A: in, B: open, C: open})
@@ -582,10 +599,16 @@ func checkC19R(c CaseC19R, x *hx.Ctx) *hx.Failure {
 	if f != nil {
 		return f
 	}
+	if c.Open.Cancel && byte(open.TypeID()) != c.Open.Type {
+		return nil // see checkC19
+	}
 	myPTS := (c.Open.PTS + 1000) & (1<<33 - 1)
 	sig := c19Sig(myPTS, true)
 	d := scte35.CreateSegmentationDescriptor()
 	sig.SetDescriptors([]scte35.SegmentationDescriptor{d})
+	if l := sig.Descriptors(); len(l) == 1 {
+		d = l[0] // the signal's own handle (a signal may keep a copy of what it is given)
+	}
 	cur := DescC19{HasPTS: true, PTS: myPTS}
 	x.NT(len(c.Steps) >= 2)
 	x.Label("retyped-object")
